@@ -1092,6 +1092,9 @@ class LibMixin:
     def call_lib(self, name, args, kwargs, run, node):  # noqa: F811 -- dispatch prefix families first
         if name.startswith("native."):
             return self.call_lib_bound_native(name[7:], args, kwargs, run, node)
+        if name == "dict.fromkeys":
+            value = args[1] if len(args) > 1 else None
+            return DictV({self.hashable(k, node): value for k in self.iterate_concrete(args[0], run, node)}, site=self.site(node))  # ONE value object for all keys
         if name.startswith("dict."):
             return self.dict_method(name[5:], args[0], args[1:], kwargs, run, node)
         if name.startswith("list."):
